@@ -34,6 +34,8 @@ TRUSTED = [
     "math.log2/ceil on integers: 2**ceil(log2(x)) is the least power of two >= x (tied exhaustively on small x and at 2^k-1, 2^k, 2^k+1 up to 2^20)",
 ]
 ASSUMPTIONS = ["exact arithmetic in the theorems; implementation compared to 1e-7",
+               "the 'edge-tail' boundary families place one coefficient at 3e-7 / 3.3e-8 (excluded band (5e-8, 2e-7) instead of [1e-9, 1e-5]): "
+               "a dropped 3.3e-8 coefficient moves the composition by less than the 1e-7 tolerance",
                "C09_compose: the singular values dropped by the rank rule are exactly 0 (in the implementation: <= 1e-7; generated inputs keep them < 1e-9)"]
 RULE = ("tie: (n, partition list) whose full index permutation (both directions) was diffed, and (low_rank, eff) / singular-value "
         "lists whose rank was diffed; oracle: (vector family, n, partition, rank) on which schmidt_decomposition + "
@@ -251,7 +253,7 @@ def families(ctx, rng, n, part):
     return out
 
 
-def oracle_case(ctx, name, n, part, v, r, key=None, svd=None):
+def oracle_case(ctx, name, n, part, v, r, key=None, svd=None, band=BAND):
     """Evaluate C09 on the real code for one (vector, partition, requested rank).  `svd`: value of the `svd` argument
     (None = not passed, i.e. the default 'auto')."""
     from qclib.entanglement import schmidt_decomposition, schmidt_composition
@@ -260,11 +262,12 @@ def oracle_case(ctx, name, n, part, v, r, key=None, svd=None):
     rows, cols = 2 ** (n - k), 2 ** k
     key = key or f"schmidt:{name}:n={n}:P={','.join(map(str, part))}:r={r}" + (f":svd={svd}" if svd else "")
     rep = {"call": "schmidt_decomposition/schmidt_composition", "family": name, "n": n, "partition": part, "rank": r, "svd": svd,
+           "band": list(band),
            "vector_re": [float(x) for x in np.real(v)], "vector_im": [float(x) for x in np.imag(v)]}
     # independent reference
     mref = ref_sep(n, np.asarray(v, dtype=complex), part)
     sref = np.linalg.svd(mref, compute_uv=False)
-    if any(BAND[0] <= x <= BAND[1] for x in sref):
+    if any(band[0] <= x <= band[1] for x in sref):
         ctx.count("skipped:threshold-band")
         return
     eff = int((sref > 1e-7).sum())
@@ -446,6 +449,79 @@ def run_oracle_branches(ctx):
                      "randomized routine chosen by 'auto' is exact")
 
 
+# ---------------------------------------------------------------------------------------------
+# boundary values of entanglement.py (each conjunct of the SVD-routine switch, the rank rule on real decompositions
+# at sizes where the switch is live, the 1e-7 cut from both sides)
+# ---------------------------------------------------------------------------------------------
+
+NARROW_BAND = (5e-8, 2e-7)    # only for the 'edge-tail' families: a coefficient a factor 3 below / above the 1e-7 cut
+
+
+def _seed_rsvd(ctx):
+    """entanglement.py draws the random test matrix of randomized_svd from a module-level unseeded generator: make the run a
+    function of VERIF_SEED (module state only)."""
+    import qclib.entanglement as ent
+    ent._rng = np.random.default_rng(ctx.rng.getrandbits(63))
+
+
+def run_oracle_boundaries(ctx):
+    rng = ctx.nprng()
+    _seed_rsvd(ctx)
+    spec3 = [0.9, 0.4, 0.15]
+    spec8 = [0.7, 0.45, 0.35, 0.25, 0.2, 0.15, 0.1, 0.08]
+    # (1) `rank == 1`: requested rank 0 / 1 / 2 and the non-powers of two 3, 5, 6 with the other conjuncts TRUE
+    #     (svd='auto', n >= 14, len(partition) > round(n/2.5)); low Schmidt rank keeps the reference SVD cheap and exact
+    for n, part in ((14, [0, 1, 3, 5, 8, 10, 13]), (14, [12, 2, 4, 5, 6, 7, 9, 11]), (15, [0, 2, 3, 6, 9, 11, 14])):
+        for name, spec in (("spectrum3", spec3), ("spectrum8", spec8)):
+            v = with_spectrum(rng, n, sorted(part), spec)
+            for r in (0, 1, 2, 3, 5, 6):
+                oracle_case(ctx, name, n, part, v, r)
+                ctx.count(f"boundary:rank-conjunct:n={n}:len={len(part)}:r={r}")
+    # (2) `n_qubits >= 14`: n = 13 / 14 / 15 with rank 1 and a partition above the bound
+    for n in (13, 14, 15):
+        k = round(n / 2.5) + 1
+        for _ in range(2):
+            part = ctx.rng.sample(range(n), k)
+            for name, spec in (("product-across", [1.0]), ("spectrum3", spec3)):
+                oracle_case(ctx, name, n, part, with_spectrum(rng, n, sorted(part), spec), 1)
+                ctx.count(f"boundary:n-conjunct:n={n}:len={k}:r=1")
+    # (3) `len(partition) > round(n_qubits/2.5)`: below / at / above the bound at n = 14, 15 with rank 1
+    for n in (14, 15):
+        b = round(n / 2.5)
+        for k, rel in ((b - 1, "below"), (b, "at"), (b + 1, "above")):
+            part = ctx.rng.sample(range(n), k)
+            for name, spec in (("product-across", [1.0]), ("spectrum3", spec3)):
+                oracle_case(ctx, name, n, part, with_spectrum(rng, n, sorted(part), spec), 1)
+                ctx.count(f"boundary:len-conjunct:n={n}:len={k}({rel}):r=1")
+    # (4) `svd == 'auto'`: the same live point with svd='regular' named explicitly
+    part = ctx.rng.sample(range(14), 7)
+    for r in (1, 3):
+        oracle_case(ctx, "spectrum8", 14, part, with_spectrum(rng, 14, sorted(part), spec8), r, svd="regular")
+        ctx.count("boundary:svd-option:regular:n=14:len=7")
+    # (5) `j > 10**-7`: a coefficient a factor 3 above (kept: counted in the rank) / below (dropped: the composition is then
+    #     off by at most that coefficient, 3.3e-8 < 1e-7) the cut
+    for n, part in ((3, [1]), (4, [0, 2]), (5, [1, 4]), (6, [0, 2, 5])):
+        mind = min(2 ** len(part), 2 ** (n - len(part)))
+        for name, tail in (("edge-tail-above", 3e-7), ("edge-tail-below", 3.3e-8)):
+            spec = [0.9, tail] if mind < 4 else [0.9, 0.4, tail]
+            v = with_spectrum(rng, n, sorted(part), spec)
+            for r in range(0, len(spec) + 2):
+                oracle_case(ctx, name, n, part, v, r, band=NARROW_BAND)
+                ctx.count(f"boundary:sv-cut:{name}")
+    # (6) `0 < low_rank < effective_rank` on real decompositions: low_rank = eff-1 / eff / eff+1 around powers of two
+    for n, part in ((6, [0, 1, 2]), (8, [0, 2, 4, 6])):
+        mind = 2 ** len(part)
+        for eff in sorted({3, 4, 5, mind - 1, mind}):
+            v = with_spectrum(rng, n, part, list(np.linspace(1.0, 0.3, eff)))
+            for r in (eff - 1, eff, eff + 1):
+                oracle_case(ctx, f"deficient{eff}", n, part, v, r)
+                ctx.count("boundary:low_rank-vs-eff:" + ("below" if r < eff else "at" if r == eff else "above"))
+    ctx.notes.append("boundary cases: the four conjuncts of the SVD-routine switch one at a time with the others true (rank 0/1/2/3/5/6, "
+                     "n = 13/14/15, len(partition) = bound-1/bound/bound+1, svd='regular'), states with 3 or 8 Schmidt coefficients; "
+                     f"'edge-tail' families put one coefficient at 3e-7 / 3.3e-8 and use the narrower excluded band {NARROW_BAND}; "
+                     "randomized_svd's module-level generator is seeded from VERIF_SEED")
+
+
 def compare(op, impl, model):
     """All dumped lines are integers / fixed tokens: exact comparison."""
     a = [" ".join(l.split()) for l in impl]
@@ -462,6 +538,7 @@ def run(ctx):
     run_tie(ctx)
     run_oracle(ctx)
     run_oracle_branches(ctx)
+    run_oracle_boundaries(ctx)
 
 
 def search(ctx, hints):
@@ -494,4 +571,5 @@ def replay(ctx, payload):
         reshape_case(ctx, r["n"], r["partition"], rng)
     else:
         v = np.array(r["vector_re"]) + 1j * np.array(r["vector_im"])
-        oracle_case(ctx, r.get("family", "replay"), r["n"], r["partition"], v, r["rank"], svd=r.get("svd"))
+        oracle_case(ctx, r.get("family", "replay"), r["n"], r["partition"], v, r["rank"], svd=r.get("svd"),
+                    band=tuple(r.get("band", BAND)))
